@@ -9,6 +9,7 @@
   The model `HL.Lex` is tied to internal/parser/lexer.go by the op `lex.tokens`.
 -/
 import HL.Lemmas.Lexer
+import HL.Lemmas.LexLocal
 namespace HL.Props.C06
 open HL HL.Lex HL.Spec.LexSpec
 
@@ -90,6 +91,44 @@ theorem lex_no_overlap (C : Classes) (input : Bytes) :
     (lexAll C input).Pairwise
       (fun a b => a.stop.off ≤ b.pos.off ∧ (b.ty ≠ .eof → a.stop.off < b.stop.off)) :=
   (ordered_pairwise _ _ _ (lexAll_ordered C input)).2
+
+/-! ### line-locality (lexical premise of C07, layer L2 of C03) -/
+
+/-- `Next` never reads behind the next line feed: with a line feed still ahead, appending any
+    bytes `x` to the unread input changes nothing but the unread input.  Checked for every
+    scan function and every look-ahead predicate (`looksLikeDate`'s index arithmetic,
+    `looksLikeAccount`, `looksLikeVirtualAccount`, `nextIsLetterCommodity`,
+    `nextIsCurrencySymbol`, the blank-group and exponent look-ahead of `scanNumber`, the
+    double-blank test of `scanAccount`, multi-byte decoding). -/
+theorem next_reads_no_further_than_lf (C : Classes) (z : Z) (x : Bytes) (h : (0x0A : UInt8) ∈ z.after) :
+    next C (z.ext x) = ((next C z).1, (next C z).2.ext x) :=
+  next_ext x C h
+
+/-- The only look-behind, `followsAmountNumber`, walks back over blanks only: behind a line
+    feed the lexer behaves as on a fresh document, with lines and offsets shifted. -/
+theorem next_looks_behind_no_further_than_lf (C : Classes) (k : Nat) (pre : Bytes) (z : Z) :
+    next C (z.shift k (0x0A :: pre)) =
+      (shiftTok k (pre.length + 1) (next C z).1, (next C z).2.shift k (0x0A :: pre)) := by
+  rw [next_shift]; simp [shiftR]
+
+/-- One call of `Next` consumes blanks and then either bytes without a line feed (staying on the
+    line), or exactly one line feed, for which it returns the Newline token and moves to
+    column 1 of the next line, at line start. -/
+theorem next_consumes_lf_only_as_newline (C : Classes) (z : Z) :
+    ∃ cons, z.after = cons ++ (next C z).2.after ∧ (next C z).2.before = cons.reverse ++ z.before ∧
+      (((0x0A : UInt8) ∉ cons ∧ (next C z).2.line = z.line ∧ (next C z).1.ty ≠ .newline) ∨
+       (∃ sp, cons = sp ++ [0x0A] ∧ (0x0A : UInt8) ∉ sp ∧ (next C z).2.line = z.line + 1 ∧
+          (next C z).2.col = 1 ∧ (next C z).2.atStart = true ∧ (next C z).1.ty = .newline)) :=
+  (next_step C z).coarse
+
+/-- **Line-locality of the whole stream**, for all byte strings `a`, `b`, no guard:
+    `lex (a ++ "\n" ++ b) = lex (a ++ "\n")` without its EOF, followed by `lex b` with lines
+    shifted by (number of LF in `a`) + 1 and offsets by `|a| + 1`. -/
+theorem lex_line_local (C : Classes) (a b : Bytes) :
+    lexAll C (a ++ 0x0A :: b) =
+      (lexAll C (a ++ [0x0A])).dropLast ++
+        (lexAll C b).map (shiftTok (countLF a + 1) (a.length + 1)) :=
+  lexAll_line_local C a b
 
 /-- Non-vacuity / sanity: a concrete stream (date, text, pipe, text, newline, EOF). -/
 example : (lexAll Classes.ascii (asc "2024-01-15 a | b\n")).map (·.ty) =
